@@ -200,10 +200,10 @@ def o_calibration(case):
 
 
 SUBCHECKS_RAW = [
-    SubCheck("eval_raw_bytes", o_eval, strategy=G.raw_eval_cases, budget=(6000, 800000), nontrivial=nt,
+    SubCheck("eval_raw_bytes", o_eval, strategy=G.raw_eval_cases, budget=(6000, 300000), nontrivial=nt,
              rule="byte strings (weighted to opcode values and push-length bytes, not a grammar) as the script: reaches instruction-decoder "
                   "edge cases (truncated pushes in odd places, pushes swallowing opcodes, unbalanced conditionals); same oracle as eval"),
-    SubCheck("spend_raw_bytes", o_spend, strategy=G.raw_spend_cases, budget=(4000, 600000), nontrivial=nt,
+    SubCheck("spend_raw_bytes", o_spend, strategy=G.raw_spend_cases, budget=(4000, 200000), nontrivial=nt,
              rule="byte-string scriptSig / scriptPubKey / witness items under generated flags: same oracle as spend (P2SH / witness "
                   "program recognition on arbitrary bytes)"),
 ]
@@ -212,9 +212,9 @@ SUBCHECKS = [
     SubCheck("calibration", o_calibration, cases=cases_calibration, exhaustive=True,
              nontrivial=lambda c, l: True,
              rule="every script_tests.json / tx_valid.json / tx_invalid.json vector through the reference interpreter; a mismatch is a harness error (exit 2), not a violation"),
-    SubCheck("eval", o_eval, strategy=G.eval_cases, budget=(10000, 1500000), nontrivial=nt,
+    SubCheck("eval", o_eval, strategy=G.eval_cases, budget=(10000, 400000), nontrivial=nt,
              rule="grammar-generated programs (operands at numeric/push boundaries, all opcodes, nested/unbalanced conditionals, limit patterns, signatures by a key ring with DER/hash-type/key-form variants) x initial stack x flag set x tx context x sigversion: BitcoinVM.eval_script vs reference EvalScript (verdict, and stack on success); non-trivial = reference executed >= 1 non-push opcode"),
-    SubCheck("spend", o_spend, strategy=G.spend_cases, budget=(8000, 1000000), nontrivial=nt,
+    SubCheck("spend", o_spend, strategy=G.spend_cases, budget=(8000, 300000), nontrivial=nt,
              rule="spends of bare/P2SH/P2WSH/P2SH-P2WSH/P2WPKH/P2SH-P2WPKH and raw scriptPubKeys, signature templates valid by construction then perturbed, witness/scriptSig/program mutations: Tx.check_solution vs reference VerifyScript (verdict); non-trivial = reference executed >= 1 non-push opcode"),
 ]
 
